@@ -2,7 +2,8 @@
 From Coq Require Import Lia.
 From Coq Require Import List Arith NArith ZArith Bool.
 From TwLib Require Import PyBytes Seg.
-From C30 Require Import Model Proofs.
+From TwLib Require Import CodecsText FramingText.
+From C30 Require Import Text Model ProofsText Proofs.
 Import ListNotations.
 
 Lemma amp_segmentation_invariant_proof : forall cs s, chunks cs s ->
@@ -56,7 +57,10 @@ Qed.
 
 
 
-(** Integer, String, Boolean and ListOf (nested to any depth): whatever toString produces, fromString maps back to the value *)
+(** Integer, String, Boolean, Decimal, DateTime, Unicode and ListOf of these (nested to any depth): whatever toString
+    produces, fromString maps back to the value.  Float is NOT covered: repr()/float() are CPython oracles with no model
+    here; the check runs its round trip on the implementation (bit for bit).  Path is Unicode plus a FilePath wrapper
+    (not modelled), AmpList is a sequence of boxes ([boxes_roundtrip_any_split]). *)
 Lemma arg_roundtrip_proof : forall t v b, enc t v = Some b -> dec t b = Some v.
 Proof. exact codec_roundtrip. 
 Qed.
@@ -65,6 +69,41 @@ Qed.
 
 Lemma integer_roundtrip_proof : forall z, bytes_to_Z (Z_to_bytes z) = Some z.
 Proof. exact int_roundtrip. 
+Qed.
+
+
+
+(** Decimal: every (sign, coefficient, exponent), every infinity and every NaN / sNaN with any payload reads back exactly
+    from its to-scientific-string text: no rounding, no exponent limit (this is what a context-dependent fromString breaks) *)
+Lemma decimal_roundtrip_proof : forall d, text_to_dec (dec_to_text d) = Some d.
+Proof. exact decimal_text_roundtrip. 
+Qed.
+
+
+
+(** DateTime: every valid date/time with microseconds and a UTC offset of whole minutes strictly inside one day *)
+Lemma datetime_roundtrip_proof : forall t, dt_valid t = true -> text_to_dt (dt_to_text t) = Some t.
+Proof. exact datetime_text_roundtrip. 
+Qed.
+
+
+
+(** Unicode: every string of scalar values survives UTF-8; a string with a lone surrogate is refused *)
+Lemma unicode_roundtrip_proof : forall s,
+  (forallb scalar s = true -> exists b, uni_to_bytes s = Some b /\ utf8_decode b = Some s) /\
+  (forallb scalar s = false -> uni_to_bytes s = None).
+Proof.
+  intros s. split; intros H; unfold uni_to_bytes; rewrite H; [|reflexivity].
+  eexists. split; [reflexivity | now apply utf8_roundtrip].
+Qed.
+
+
+
+Lemma decimal_example_proof :
+  dec_to_text (DFin true 12345 (-7)) = [45; 48; 46; 48; 48; 49; 50; 51; 52; 53]%N /\
+  dec_to_text (DFin false 12345 (-12)) = [49; 46; 50; 51; 52; 53; 69; 45; 56]%N /\
+  text_to_dec (dec_to_text (DFin false 1234567890123456789012345678901234567890 1000000)) = Some (DFin false 1234567890123456789012345678901234567890 1000000).
+Proof. repeat split; vm_compute; reflexivity. 
 Qed.
 
 
